@@ -333,6 +333,17 @@ def evaluate(vec, r, props, style=0, morph_from=None, huge=False, chan_zero=None
                 out.append(("C14:equal_content_unequal", "a block is unequal to an identically built one"))
             if not (obj == dec) or not (dec == obj):
                 out.append(("C14:roundtrip_unequal", "a block is unequal to the decode of its own encoding"))
+            # something that is not a block of this type is never equal to it (False or a refusal)
+            from basictdf.tdfEvents import TemporalEventsData as _TE
+            from basictdf.tdfOpticalSystem import OpticalSetupBlock as _OS
+            for foreign in (None, "text", 5, (_OS() if kind == "Events" else _TE())):
+                for lhs, rhs in ((obj, foreign), (foreign, obj)):
+                    try:
+                        same = bool(lhs == rhs)
+                    except Exception:  # noqa: BLE001
+                        same = False
+                    if same:
+                        out.append(("C14:equal_to_foreign_object", f"{kind} block == {type(foreign).__name__}"))
             if kind == "CalibrationData" and b["cams"]:
                 # the same header with cameras of the OTHER format: unequal, in both orders, without raising
                 ofmt = 2 if fmt == 1 else 1
